@@ -19,6 +19,7 @@ From Coq Require Import List ZArith Bool Lia.
 Import ListNotations.
 From TI Require Import model.Iter model.IterSpec proofs.IterProofs proofs.IterProofs2
      proofs.IterProofs3 proofs.IterProofs4 proofs.IterExamples.
+From TI Require gen.IterSrc proofs.IterSrcTie.
 Open Scope Z_scope.
 
 (** for EVERY history: frames (number, duration, size, output, padding), countdown, errors
@@ -215,3 +216,25 @@ Theorem C08_renderable_frame_untouched :
   forall RS render n term ops (s : state RS), r_frame (run RS render n term s ops) = r_frame s.
 Proof. exact renderable_frame_untouched. Qed.
 Print Assumptions C08_renderable_frame_untouched.
+
+(** *** [RenderIterator.seek] tied to the source as a theorem (T): the method is translated
+    statement by statement from [render/_iterator.py] on every run into [gen/IterSrc.v] by
+    [harness/tx/tx_iter.py]; for ALL states, offsets and whence values the model step [Iter.seek]
+    raises exactly the exception, or performs exactly the update of (frame_offset, seek_whence),
+    that the translated source does, and changes nothing else *)
+Theorem C08_source_seek :
+  forall RS n (s : state RS) off w,
+    seek RS n s off w =
+    TI.proofs.IterSrcTie.apply_seek RS s (TI.gen.IterSrc.src_seek (closed s) n (fo (rd s)) off w).
+Proof. exact TI.proofs.IterSrcTie.seek_is_source. Qed.
+Print Assumptions C08_source_seek.
+
+(** read off the SOURCE: an accepted seek on a definite source selects a frame in range, relative
+    to START / to the frame to be rendered next (CURRENT) / to the last frame (END) *)
+Theorem C08_source_seek_definite_range :
+  forall closed_ k fo_ off w f w',
+    TI.gen.IterSrc.src_seek closed_ (Some k) fo_ off w = TI.gen.IterSrc.SUpdate f w' ->
+    0 <= f < k /\ w' = WStart /\
+    f = match w with WStart => off | WCurrent => fo_ + off | WEnd => k + off - 1 end.
+Proof. exact TI.proofs.IterSrcTie.source_seek_definite_range. Qed.
+Print Assumptions C08_source_seek_definite_range.
